@@ -1083,9 +1083,9 @@ def finalize_constraints(weights,
     return weights
   units = weights.shape[1]
   if units > 1:
-    lattice_sizes = lattice_sizes + [int(units)]
+    lattice_sizes = list(lattice_sizes) + [int(units)]
     if monotonicities:
-      monotonicities = monotonicities + [0]
+      monotonicities = list(monotonicities) + [0]
 
   weights = tf.reshape(weights, shape=lattice_sizes)
 
@@ -1916,9 +1916,9 @@ def project_by_dykstra(weights,
   if joint_unimodalities is None:
     joint_unimodalities = []
   if units > 1:
-    lattice_sizes = lattice_sizes + [int(units)]
-    monotonicities = monotonicities + [0]
-    unimodalities = unimodalities + [0]
+    lattice_sizes = list(lattice_sizes) + [int(units)]
+    monotonicities = list(monotonicities) + [0]
+    unimodalities = list(unimodalities) + [0]
 
   weights = tf.reshape(weights, lattice_sizes)
 
